@@ -27,6 +27,15 @@ pub assume_specification<'a, K, V, S, A, Q> [std::collections::HashMap::<K, V, S
                && final(m)@.dom() == old(m)@.dom() && maps_borrowed_key_to_value(final(m)@, k, *final(v))
                && (forall|k2: K| #![auto] old(m)@.contains_key(k2) && !maps_borrowed_key_to_value(old(m)@, k, old(m)@[k2]) ==> final(m)@[k2] == old(m)@[k2]),
     None => final(m)@ == old(m)@ && !contains_borrowed_key(old(m)@, k) };
+// HashMap::get_mut for the transaction table, through a monomorphic wrapper carrying std's documented contract
+// (the generic assume_specification above cannot say "every other key keeps its value")
+#[verifier::external_body]
+pub fn vx_tr_get_mut<'a>(m: &'a mut HashMap<TransactionId, StunTransaction>, k: &TransactionId) -> (r: Option<&'a mut StunTransaction>)
+    ensures match r {
+        Some(v) => old(m)@.contains_key(*k) && *v == old(m)@[*k] && final(m)@ == old(m)@.insert(*k, *final(v)),
+        None => !old(m)@.contains_key(*k) && final(m)@ == old(m)@,
+    },
+{ unimplemented!() }
 impl core::hash::Hash for TransactionId {
     #[verifier::external_body]
     fn hash<H: core::hash::Hasher>(&self, state: &mut H) { unimplemented!() }
@@ -256,6 +265,75 @@ pub open spec fn recv_ok_post(c0: StunClient, c1: StunClient, raw: Seq<u8>, m: S
                     == (if x.transaction_id != m.sid() { c0.timeouts.ms().count(x) } else { 0 }))
             &&& finish_rtt_rel(c0.rtt, c1.rtt, c0.transactions@, m.sid(), now)
         })
+}
+// the schedule of a request after a timer call at `now` that found it expired and retransmitted it (unit timers,
+// RtoManager::next_rto): same origin, a later slot whose time is still ahead, every slot in between has passed
+pub open spec fn rto_advanced(m0: RtoManager, m1: RtoManager, now: int) -> bool {
+    &&& m1.wf() && m1.latest == Some(inst(now))
+    &&& m1.rtt() == m0.rtt() && m1.rm() == m0.rm() && m1.rc() == m0.rc()
+    &&& m1.origin() == m0.origin()
+    &&& m0.j() < m1.j() <= m0.rc()
+    &&& m1.deadline() > now
+    &&& m1.deadline() == m0.origin() + sched(m0.rtt(), m0.rm(), m0.rc(), m1.j())
+    &&& forall|k: int| m0.j() <= k < m1.j() ==> m0.origin() + #[trigger] sched(m0.rtt(), m0.rm(), m0.rc(), k) <= now
+}
+// one event of a timer call, about request `id`
+pub open spec fn tmo_event_ok(c0: StunClient, tr1: Map<TransactionId, StunTransaction>, id: TransactionId, e: StunClientEvent, now: int) -> bool {
+    &&& c0.transactions@.contains_key(id)
+    &&& dl(c0.transactions@, id) <= now          // only a request whose pending deadline has passed is touched
+    &&& match e {
+        // retransmission: byte-identical packet, RTT sampling cancelled (Karn), schedule advanced
+        StunClientEvent::OutputPacket(p) =>
+            tr1.contains_key(id) && p == c0.transactions@[id].packet
+            && tr1[id].packet == c0.transactions@[id].packet && tr1[id].instant is None
+            && rto_advanced(c0.transactions@[id].rtos, tr1[id].rtos, now),
+        // final failure: never before the last deadline t0 + S(Rc); the request is gone afterwards;
+        // reported as protection-violated exactly when the marker for it was set (C07)
+        StunClientEvent::TransactionFailed(f) =>
+            f.0 == id && !tr1.contains_key(id)
+            && (f.1 is TimedOut || f.1 is ProtectionViolated)
+            && (f.1 is ProtectionViolated <==> c0.mechanism is Some && c0.mechanism->Some_0.violated().contains(id))
+            && c0.transactions@[id].rtos.at(c0.transactions@[id].rtos.rc()) <= now,
+        _ => false,
+    }
+}
+pub open spec fn tmo_batch_ok(c0: StunClient, c1: StunClient, ev: Seq<StunClientEvent>, ids: Seq<TransactionId>, now: int) -> bool {
+    &&& ids.no_duplicates()
+    &&& ids.len() <= ev.len() <= ids.len() + 1
+    &&& (forall|k: int| 0 <= k < ids.len() ==> tmo_event_ok(c0, c1.transactions@, #[trigger] ids[k], ev[k], now))
+    // every request whose deadline has passed was served in this call (C11)
+    &&& (forall|id: TransactionId| c0.transactions@.contains_key(id) && dl(c0.transactions@, id) <= now ==> ids.contains(id))
+    // C11: a timer notification, last, exactly when some request is still outstanding
+    &&& (ev.len() == ids.len() + 1 <==> c1.transactions@.len() > 0)
+    &&& (ev.len() == ids.len() + 1 ==> ev[ids.len() as int] is RestransmissionTimeOut
+            && notif_ok_m(c1.transactions@, ev[ids.len() as int]->RestransmissionTimeOut_0.0, ev[ids.len() as int]->RestransmissionTimeOut_0.1, now))
+}
+proof fn lemma_check_post_unfold(a: Multiset<TimeoutItem>, b: Multiset<TimeoutItem>, removed: Seq<TimeoutItem>, ids: Seq<TransactionId>, now: int)
+    requires check_post(a, b, removed, ids, now),
+    ensures forall|k: int| 0 <= k < removed.len() ==> ids[k] == #[trigger] removed[k].transaction_id && removed[k].expiry() <= now,
+        removed.len() == ids.len(),
+{
+}
+proof fn lemma_check_post_unfold2(a: Multiset<TimeoutItem>, b: Multiset<TimeoutItem>, removed: Seq<TimeoutItem>, ids: Seq<TransactionId>, now: int)
+    requires check_post(a, b, removed, ids, now),
+    ensures forall|y: TimeoutItem| b.count(y) > 0 ==> y.expiry() > now,
+        forall|y: TimeoutItem| a.count(y) == b.count(y) + removed.to_multiset().count(y),
+{
+}
+proof fn lemma_count_two(s: Seq<TimeoutItem>, a: int, b: int)
+    requires 0 <= a < b < s.len(), s[a] == s[b],
+    ensures s.to_multiset().count(s[a]) >= 2,
+{
+    s.to_multiset_ensures();
+    let s2 = s.remove(b);
+    s2.to_multiset_ensures();
+    assert(s2[a] == s[a]);
+    assert(s2.contains(s[a]));
+    assert(s2.to_multiset().count(s[a]) >= 1);
+    assert(s2.to_multiset() =~= s.to_multiset().remove(s[b]));
+    assert(s.contains(s[b]));
+    assert(s.to_multiset().count(s[b]) >= 1);
+    assert(s.to_multiset().remove(s[b]).count(s[b]) == s.to_multiset().count(s[b]) - 1);
 }
 pub open spec fn dl(tr: Map<TransactionId, StunTransaction>, id: TransactionId) -> int { tr[id].rtos.deadline() }
 // C11: `(id, left)` is an accurate timer notification at time `now`: it names an outstanding request with the
@@ -552,6 +630,229 @@ impl StunClient {
             &&& mech_frame(old(self).mechanism, final(self).mechanism, buffer@)
         },
         r is Ok ==> decoded(buffer@) is Some && recv_ok_post(*old(self), *final(self), buffer@, decoded(buffer@)->Some_0, instant),
+//@end
+    pub proof fn lemma_empty_iff(&self)
+        requires self.wf(),
+        ensures self.timeouts.ms().len() == 0 <==> self.transactions@.len() == 0,
+    {
+        if self.transactions@.len() > 0 {
+            let id = self.transactions@.dom().choose();
+            assert(self.transactions@.dom().contains(id));
+            assert(self.transactions@.contains_key(id));
+            assert(self.tr_ok(id));
+            assert(self.timeouts.ms().count(self.entry(id)) > 0);
+            assert(self.timeouts.ms().len() > 0);
+        }
+        if self.timeouts.ms().len() > 0 {
+            let x = self.timeouts.ms().choose();
+            assert(self.timeouts.ms().count(x) > 0);
+            assert(self.transactions@.contains_key(x.transaction_id));
+            assert(self.transactions@.dom().contains(x.transaction_id));
+            if self.transactions@.len() == 0 {
+                assert(self.transactions@.dom() =~= Set::<TransactionId>::empty());
+            }
+        }
+    }
+//@item stun_agent :: mod client > impl StunClient > fn on_timeout
+//@tags C05 C06 C11 C12 C07 C15
+//@rules R3V R6 R11
+//@sub "self.transactions.get_mut(&transaction_id)" => "vx_tr_get_mut(&mut self.transactions, &transaction_id)"
+//@head
+    broadcast use axiom_txid_key_model;
+    let ghost c0 = *self;
+    let ghost now = instant.ns@;
+//@after "let timed_out = self.timeouts.check(instant);"
+    let ghost removed = choose|removed: Seq<TimeoutItem>| check_post(c0.timeouts.ms(), self.timeouts.ms(), removed, timed_out@, now);
+    let ghost ms1 = self.timeouts.ms();
+    let ghost mut ids: Seq<TransactionId> = Seq::empty();
+    proof {
+        assert(check_post(c0.timeouts.ms(), ms1, removed, timed_out@, now));
+        lemma_check_post_unfold(c0.timeouts.ms(), ms1, removed, timed_out@, now);
+        removed.to_multiset_ensures();
+        // every popped entry was the (unique) timer of an outstanding request
+        assert forall|k: int| 0 <= k < removed.len() implies
+            c0.transactions@.contains_key(#[trigger] removed[k].transaction_id) && removed[k] == c0.entry(removed[k].transaction_id)
+            && c0.timeouts.ms().count(removed[k]) == 1 && ms1.count(removed[k]) == 0 && removed.to_multiset().count(removed[k]) == 1 by {
+            assert(removed.contains(removed[k]));
+            assert(removed.to_multiset().count(removed[k]) > 0);
+            assert(c0.timeouts.ms().count(removed[k]) == ms1.count(removed[k]) + removed.to_multiset().count(removed[k]));
+        }
+        assert forall|a: int, b: int| 0 <= a < b < removed.len() implies removed[a].transaction_id != removed[b].transaction_id by {
+            if removed[a].transaction_id == removed[b].transaction_id {
+                assert(removed[a] == removed[b]);
+                lemma_count_two(removed, a, b);
+            }
+        }
+        assert forall|x: TimeoutItem| #[trigger] ms1.count(x) > 0 implies c0.timeouts.ms().count(x) > 0
+            && (forall|k: int| 0 <= k < removed.len() ==> x.transaction_id != #[trigger] removed[k].transaction_id) by {
+            assert(c0.timeouts.ms().count(x) == ms1.count(x) + removed.to_multiset().count(x));
+            assert forall|k: int| 0 <= k < removed.len() implies x.transaction_id != #[trigger] removed[k].transaction_id by {
+                if x.transaction_id == removed[k].transaction_id { assert(x == removed[k]); }
+            }
+        }
+    }
+//@before "let mut events"
+    proof {
+        assert(forall|k: int| 0 <= k < removed.len() ==> timed_out@[k] == #[trigger] removed[k].transaction_id && removed[k].expiry() <= now);
+    }
+//@before "self.transaction_events.vx_commit("
+    let ghost evs = events.events@;
+    proof {
+        assert(self.wf());
+        self.lemma_empty_iff();
+        assert(ids.len() == removed.len());
+        assert forall|a: int, b: int| 0 <= a < ids.len() && 0 <= b < ids.len() && a != b implies ids[a] != ids[b] by {
+            if a < b { assert(removed[a].transaction_id != removed[b].transaction_id); }
+            else { assert(removed[b].transaction_id != removed[a].transaction_id); }
+        }
+        assert(ids.no_duplicates());
+        removed.to_multiset_ensures();
+        lemma_check_post_unfold2(c0.timeouts.ms(), ms1, removed, timed_out@, now);
+        // every request that was due has been served
+        assert forall|id: TransactionId| c0.transactions@.contains_key(id) && dl(c0.transactions@, id) <= now implies ids.contains(id) by {
+            let x = c0.entry(id);
+            assert(c0.tr_ok(id));
+            assert(x.expiry() == dl(c0.transactions@, id));
+            assert(c0.timeouts.ms().count(x) == ms1.count(x) + removed.to_multiset().count(x));
+            assert(ms1.count(x) == 0);
+            assert(removed.contains(x));
+            let k = choose|k: int| 0 <= k < removed.len() && removed[k] == x;
+            assert(ids[k] == id);
+        }
+        // requests that were not due are not among the served ones
+        assert forall|id: TransactionId| c0.transactions@.contains_key(id) && dl(c0.transactions@, id) > now implies
+            self.transactions@.contains_key(id) && self.transactions@[id] == c0.transactions@[id] by {
+            assert forall|k: int| 0 <= k < removed.len() implies #[trigger] removed[k].transaction_id != id by {
+                if removed[k].transaction_id == id { assert(removed[k] == c0.entry(id)); }
+            }
+        }
+        if evs.len() == ids.len() + 1 {
+            let x = self.timeouts.top();
+            self.lemma_notif(now, x, evs[ids.len() as int]->RestransmissionTimeOut_0.1);
+        }
+        assert(forall|k: int| 0 <= k < ids.len() ==> tmo_event_ok(c0, self.transactions@, #[trigger] ids[k], evs[k], now));
+    }
+//@tail
+    proof {
+        if evs.len() == 0 {
+            assert(self.transaction_events.events@ == c0.transaction_events.events@);
+            assert(ids.len() == 0);
+        } else {
+            assert(self.transaction_events.events@ == evs);
+            assert(tmo_batch_ok(c0, *self, self.transaction_events.events@, ids, now));
+        }
+    }
+//@loopstart 1
+    let ghost i = vx_i0 as int;
+    let ghost cur = removed[i].transaction_id;
+    let ghost tr0 = self.transactions@;
+    let ghost ms0 = self.timeouts.ms();
+    let ghost mech0 = self.mechanism;
+    proof {
+        assert(timed_out@[i] == cur);
+        assert(tr0.contains_key(cur) && tr0[cur] == c0.transactions@[cur]);
+        assert(c0.tr_ok(cur));
+    }
+//@after "self.timeouts.add(instant, rto, transaction_id);"
+    proof {
+        assert(transaction_id == cur);
+        assert(self.timeouts.ms() == ms0.insert(TimeoutItem { instant, timeout: rto, transaction_id: cur }));
+    }
+//@after "events.push(StunClientEvent::OutputPacket("
+    proof {
+        ids = ids.push(transaction_id);
+        assert(self.transactions@.contains_key(cur));
+        assert(self.transactions@ =~= tr0.insert(cur, self.transactions@[cur]));
+    }
+//@after "self.transactions.remove(&transaction_id);"
+    proof {
+        ids = ids.push(transaction_id);
+        assert(self.transactions@ =~= tr0.remove(cur));
+    }
+//@loopend 1
+    proof {
+        let tr1 = self.transactions@;
+        let ms1b = self.timeouts.ms();
+        assert(ids.len() == i + 1 && ids[i] == cur);
+        if tr1.contains_key(cur) {
+            // retransmitted
+            let item = TimeoutItem { instant, timeout: tr1[cur].rtos.last_rto, transaction_id: cur };
+            assert(tr1 =~= tr0.insert(cur, tr1[cur]));
+            assert(ms1b == ms0.insert(item));
+            assert(self.entry(cur) == item);
+            assert(ms0.count(item) == 0) by { if ms0.count(item) > 0 { assert(item.transaction_id != removed[i].transaction_id); } }
+            assert(tr1.dom() =~= tr0.dom());
+        } else {
+            assert(tr1 =~= tr0.remove(cur));
+            assert(ms1b == ms0);
+            assert(tr1.dom() =~= tr0.dom().remove(cur));
+            assert(tr1.len() == tr0.len() - 1);
+        }
+        assert forall|x: TimeoutItem| #[trigger] ms1b.count(x) > 0 implies
+            tr1.contains_key(x.transaction_id) && ms1b.count(x) == 1 && x == self.entry(x.transaction_id) by {
+            if x.transaction_id != cur {
+                assert(ms0.count(x) > 0);
+                assert(tr0.contains_key(x.transaction_id));
+            }
+        }
+        assert forall|id: TransactionId| #[trigger] tr1.contains_key(id)
+            && (forall|k: int| i + 1 <= k < removed.len() ==> #[trigger] removed[k].transaction_id != id) implies self.tr_ok(id) by {
+            if id != cur {
+                assert(forall|k: int| i <= k < removed.len() ==> #[trigger] removed[k].transaction_id != id);
+                assert(tr0.contains_key(id));
+                assert(tr1[id] == tr0[id]);
+            }
+        }
+    }
+//@loop 1
+    invariant
+        obeys_key_model::<TransactionId>(),
+        vx_i0 <= timed_out@.len(), timed_out@.len() == removed.len(), now == instant.ns@, c0 == *old(self), c0.wf(),
+        forall|k: int| 0 <= k < removed.len() ==> timed_out@[k] == #[trigger] removed[k].transaction_id && removed[k].expiry() <= now,
+        forall|k: int| 0 <= k < removed.len() ==> c0.transactions@.contains_key(#[trigger] removed[k].transaction_id)
+            && removed[k] == c0.entry(removed[k].transaction_id),
+        forall|a: int, b: int| 0 <= a < b < removed.len() ==> removed[a].transaction_id != removed[b].transaction_id,
+        self.timeouts.wf(), self.rtt == c0.rtt, self.max_transactions == c0.max_transactions,
+        self.use_fingerprint == c0.use_fingerprint, self.transaction_events == c0.transaction_events,
+        self.transactions@.dom().finite(), self.transactions@.dom().subset_of(c0.transactions@.dom()),
+        self.transactions@.len() <= self.max_transactions,
+        self.timers_ok(),
+        // the requests still to be served in this call have no timer and are as they were
+        forall|k: int, x: TimeoutItem| vx_i0 <= k < removed.len() && #[trigger] self.timeouts.ms().count(x) > 0
+            ==> x.transaction_id != #[trigger] removed[k].transaction_id,
+        forall|k: int| vx_i0 <= k < removed.len() ==> self.transactions@.contains_key(#[trigger] removed[k].transaction_id)
+            && self.transactions@[removed[k].transaction_id] == c0.transactions@[removed[k].transaction_id],
+        // every other request has its timer
+        forall|id: TransactionId| #[trigger] self.transactions@.contains_key(id)
+            && (forall|k: int| vx_i0 <= k < removed.len() ==> #[trigger] removed[k].transaction_id != id) ==> self.tr_ok(id),
+        // requests that were not due are untouched
+        forall|id: TransactionId| #[trigger] c0.transactions@.contains_key(id)
+            && (forall|k: int| 0 <= k < removed.len() ==> #[trigger] removed[k].transaction_id != id)
+            ==> self.transactions@.contains_key(id) && self.transactions@[id] == c0.transactions@[id],
+        // mechanism: only the markers of served requests are consumed
+        c0.mechanism is Some <==> self.mechanism is Some,
+        self.mechanism is Some ==> self.mechanism->Some_0.st() == c0.mechanism->Some_0.st()
+            && forall|k: int| vx_i0 <= k < removed.len() ==> self.mechanism->Some_0.violated().contains(#[trigger] removed[k].transaction_id)
+                == c0.mechanism->Some_0.violated().contains(removed[k].transaction_id),
+        // events so far: one per served request
+        ids.len() == vx_i0, events.events@.len() == vx_i0,
+        forall|k: int| 0 <= k < vx_i0 ==> #[trigger] ids[k] == removed[k].transaction_id,
+        forall|k: int| 0 <= k < vx_i0 ==> tmo_event_ok(c0, self.transactions@, #[trigger] ids[k], events.events@[k], now),
+    decreases timed_out@.len() - vx_i0,
+//@spec
+    requires old(self).wf(),
+    ensures final(self).wf(),
+        final(self).max_transactions == old(self).max_transactions,
+        final(self).use_fingerprint == old(self).use_fingerprint,
+        final(self).rtt == old(self).rtt,
+        final(self).transactions@.dom().subset_of(old(self).transactions@.dom()),
+        // requests whose deadline lies ahead are not touched
+        forall|id: TransactionId| old(self).transactions@.contains_key(id) && dl(old(self).transactions@, id) > instant.ns@
+            ==> final(self).transactions@.contains_key(id) && final(self).transactions@[id] == old(self).transactions@[id],
+        // the events of this call (they replace the pending ones unless there are none and nothing is outstanding)
+        (final(self).transaction_events.events@ == old(self).transaction_events.events@ && final(self).transactions@.len() == 0
+            && (forall|id: TransactionId| old(self).transactions@.contains_key(id) ==> dl(old(self).transactions@, id) > instant.ns@))
+        || exists|ids: Seq<TransactionId>| tmo_batch_ok(*old(self), *final(self), final(self).transaction_events.events@, ids, instant.ns@),
 //@end
 }
 proof fn vx_sentinel() ensures false {}
